@@ -1,6 +1,8 @@
-\* C07 - two requests in flight (Slots = 2): every interleaving of Take / Decode / Mutate / Parse / AddCache /
-\* Respond / Finish of two requests, every pool choice, PoolMax = 2; RequestsConc (27 requests). No export.
-\* Measured: 1,401,164 distinct states (3,306,089 generated), depth 40, 68 s with 4 workers.
+\* C07 - two requests in flight (Slots = 2): every interleaving of Start / Take / Decode / Mutate / Parse / AddCache /
+\* Execute / Write / Finish of two requests (a response held between Execute and Write while the other request
+\* runs), every pool choice, PoolMax = 2; RequestsConc (23 requests), server configured with headers that name
+\* no Content-Type. No export.
+\* Measured: 1,462,772 distinct states (3,359,353 generated), depth 45, 35 s with 3 workers.
 CONSTANTS
   Requests <- RequestsConc
   ResetFields <- AllSix
